@@ -238,6 +238,82 @@ def rand_again(o, wfull, st):
     return (st, p2, desc, ul, kinds, op, wfull, "late")
 
 
+def money_world_case(chk, rng, wi, n_ops=40):
+    """predefined catalogue + currencies + money-per-X types: products and
+    quotients that create or consume money (a type without reference unit
+    whose units carry their own quantum)"""
+    from ..gen import Decl
+    from ..cases import world_program
+    curs = {"EUR": 2, "USD": 2, "JPY": 0, "BHD": 3}
+    xtypes = {"Mass": ["kg", "g", "lb"], "Length": ["m", "km"],
+              "Duration": ["h", "s"]}
+    w = predefined_world(curs)
+    plan = []
+    pool = list(curs)
+    for xt, xus in xtypes.items():
+        name = "Per%s%d" % (xt, wi % 5)
+        d = Decl("derived", name=name, items=[("Money", 1), (xt, -1)],
+                 form=rng.choice(["ops", "term"]))
+        d.apply(w)
+        plan.append(d)
+        pool += xus
+        for cur in curs:
+            for xu in xus:
+                if rng.random() < 0.5:
+                    sym = "%s/%s" % (cur, xu)
+                    du = Decl("derive", t=name, sym=sym, units=[cur, xu])
+                    du.apply(w)
+                    plan.append(du)
+                    pool.append(sym)
+    pre = [{"id": "Money", "e": ["g", "quantity.money:Money"]}] + \
+          [{"id": xt, "e": ["g", "quantity.predefined:" + xt]}
+           for xt in xtypes] + \
+          [{"e": M(["g", "quantity.money:Money"], "register_currency",
+                   ["s", c])} for c in curs]
+    wid = "moneyworld%d" % wi
+    planj = [d.to_json() for d in plan]
+    subs = []
+    prices = [s_ for s_ in pool if "/" in s_]
+    for j in range(n_ops):
+        s1, s2 = rng.choice(pool), rng.choice(pool)
+        op = rng.choice("*/")
+        shape = rng.random()
+        if prices and shape < 0.25:         # price * quantity -> money
+            s1 = rng.choice(prices)
+            xt = [t for t in xtypes if s1.split("/")[1] in xtypes[t]][0]
+            s2 = rng.choice(SI.units_of(xt))
+            op = "*"
+            if rng.random() < 0.5:
+                s1, s2 = s2, s1
+        elif shape < 0.4:                   # money / quantity -> price
+            s1 = rng.choice(list(curs))
+            s2 = rng.choice([u for us in xtypes.values() for u in us])
+            op = "/"
+        elif prices and shape < 0.55:       # money / price -> quantity
+            s1 = rng.choice(list(curs))
+            s2 = rng.choice(prices)
+            op = "/"
+        elif prices and shape < 0.65:       # price / price
+            s1, s2 = rng.choice(prices), rng.choice(prices)
+            op = "/"
+        kinds = rng.choice(KINDS2[:4] * 3 + KINDS2[4:])
+        e1, m1 = operand(rng, w, s1, kinds[0])
+        e2, m2 = operand(rng, w, s2, kinds[1])
+        st = {"k": "r", "e": OP(op, e1, e2)}
+        pred = w.predict_mul(op, m1, m2)
+        desc = "(%s) %s (%s)" % (describe_operand(m1), op,
+                                 describe_operand(m2))
+
+        def judge(obs, st=st, pred=pred, desc=desc, kinds=kinds, op=op):
+            if pred["kind"] in ("qty", "qty-noref") and \
+                    pred.get("type") == "Money":
+                chk.count("results in money (own quantum per currency)")
+            judge_op(chk, w, pred, (obs or {}).get("r"), desc, [st],
+                     kinds == "uu", wid, kinds, op, plan=planj)
+        subs.append(([st], judge))
+    return world_program(chk, plan, subs, wid, extra_pre=pre)
+
+
 def run(chk, R, tier, seed):
     rng = random.Random("C02-%d" % seed)
     for c in ("outcome|number", "outcome|undefined", "outcome|qty",
@@ -248,6 +324,9 @@ def run(chk, R, tier, seed):
         chk.require(c)
     cases = predefined_cases(chk, rng, tier)
     run_cases(chk, R, cases, per_program=250)
+    chk.require("results in money (own quantum per currency)")
+    nm = 16 if tier == "quick" else 400
+    run_cases(chk, R, [money_world_case(chk, rng, i) for i in range(nm)])
     nw = 48 if tier == "quick" else 1500
     done = 0
     while done < nw:
